@@ -10,3 +10,5 @@ uint8_t *_Znwm(uint64_t n) { uint8_t *p = (uint8_t *)malloc(n); __CPROVER_assume
 void _ZdlPv(uint8_t *p) { free(p); }
 /* C08 box task: token counter and the outcome of the plain widening on the same operands */
 uint32_t G_tokens, G_tokens0; int G_plain_changed; uint32_t G_fy0;
+/* C13 box tasks: raw storage for a copy, entry copy of y */
+BOX_T G_bz; ITV_T G_ys0[BOX_N]; uint32_t G_fy0v;
